@@ -20,6 +20,10 @@ CLAIMS = {
    text="Signals.tla models the heap of electrical/optical signal objects (rows of Gaussian integers, optional noise) with one action per public entry point: +,-,* and their reflected forms with object operands and nine literal kinds under numpy broadcasting, every slice form (CPython semantics), int index, copy(n), domain transform; SignalsCtor.tla is the constructor decision table (12 signal forms x n_pol x noise forms). TLC checks the shape/noise contract, class/n_pol/length preservation, the total-field law, noise-iff, ValueError exactly on length mismatch, exact slicing and AppendOnly on every call over all ordered pairs of 6+7 representative objects (~80k states), and every distinct TLC state is replayed on the real classes with write-protected int/float/complex operands (values, layout, exception verdict, operand digests, np.shares_memory). Random depth-6 programs on lengths up to 4099 are validated event by event by TLC (SignalsTrace).",
    note="trusted: TLC, JSON transport of integer sample values; products and transforms are constrained in shape/class/noise presence only (as the statement); operands of different polarisation counts and a length-1 left operand with a longer right operand are not constrained; ndarray/numpy-scalar operands only on the right",
    technique="TLA+ heap state machine + TLC exhaustive model checking + replay of every TLC state + TLC trace validation of random programs"),
+ "C14": dict(level="model_checking",
+   text="GlobalGrid.tla is the gv singleton as a state machine (Call with any subset of sps/R/fs/wavelength/N/custom keywords following the branch structure of __call__, Clean); TLC explores its complete reachable state space (finite: ~2.4k states, 1M transitions; wider domains in thorough) and proves GridConsistent, CleanRestores, CustomPersists, NSticky for histories of any length. Every history of length <= 2 produced by TLC is replayed on the real singleton with all fields of the statement compared (sps,R,fs,dt,wavelength,f0,N,len(t),len(w),w values,dw,custom), and long random histories recorded on the real singleton are accepted/rejected by the stateful trace spec GlobalGridTrace (design actions + logged primed state). Purity: World.tla/WorldTrace.tla monitor recorded histories of ~36 public device/codec/DSP/utility calls interleaved with np.random.seed and gv reconfigurations: gv and argument digests unchanged, RNG untouched by deterministic functions, results a function of (name,args,gv[,RNG state]) via a memo, no aliasing.",
+   note="trusted: TLC, sha1 digests interned to integers; rates restricted to commensurate values (the statement's domain); execution_time, warnings filter and tic/toc stack excluded; world histories sample call orders (3x110 events quick, 12x250 thorough) - they are not exhaustive",
+   technique="TLA+ state machine + TLC complete state-space exploration + replay of TLC histories + stateful TLC trace validation"),
 }
 
 
